@@ -126,6 +126,12 @@ func (c *repositoryClient) FetchSignatureBlob(ctx context.Context, desc ocispec.
 	if sigBlobDesc.Size > maxBlobSizeLimit {
 		return nil, ocispec.Descriptor{}, fmt.Errorf("signature blob too large: %d bytes", sigBlobDesc.Size)
 	}
+	// the descriptor comes from the (untrusted) signature manifest, and
+	// content.FetchAll panics on a digest that is malformed or uses an
+	// unavailable algorithm
+	if err := sigBlobDesc.Digest.Validate(); err != nil {
+		return nil, ocispec.Descriptor{}, fmt.Errorf("invalid signature blob digest %q: %w", sigBlobDesc.Digest, err)
+	}
 
 	var fetcher content.Fetcher = c.GraphTarget
 	if repo, ok := c.GraphTarget.(registry.Repository); ok {
@@ -165,6 +171,11 @@ func (c *repositoryClient) getSignatureBlobDesc(ctx context.Context, sigManifest
 	}
 	if sigManifestDesc.Size > maxManifestSizeLimit {
 		return ocispec.Descriptor{}, fmt.Errorf("signature manifest too large: %d bytes", sigManifestDesc.Size)
+	}
+	// the descriptor may come from an (untrusted) referrers listing, see
+	// FetchSignatureBlob
+	if err := sigManifestDesc.Digest.Validate(); err != nil {
+		return ocispec.Descriptor{}, fmt.Errorf("invalid signature manifest digest %q: %w", sigManifestDesc.Digest, err)
 	}
 
 	// get the signature manifest from sigManifestDesc
